@@ -14,7 +14,8 @@ LEVEL = 'exploration'
 RULE = ('One instance with 1-2 AsyncServiceBrowsers on disjoint types (delay 1/2/10/60 s, question type default/QU/QM) learns pointer '
         'records through injected responses: TTL in {1 (floored), 1125, 1200, 2000, 4500, 7200, 36000}, learned in any order, '
         'refreshed, re-cased, withdrawn or left to expire; clock steps are absolute, relative to a live record\'s lifetime '
-        '(75/85/95 % +- a few ms) or relative to the scheduler\'s armed wake-up (just before/after) - in particular a shorter-lived '
+        '(75/85/95 % +- a few ms), relative to the scheduler\'s armed wake-up (just before/after), or - for refreshes with another TTL - '
+        'such that the new 75 % point lands within -1.2..+1.2 delays of a rung of the current schedule - in particular a shorter-lived '
         'record learned while the timer is armed for a longer-lived one. The run continues until every record has expired plus one '
         'delay. Oracle on the browser\'s query datagrams (independent decoder): start-up instants j, j+1, j+5, j+14 s with the recorded '
         'jitter j, first QU unless forced; afterwards distinct send instants >= delay apart; for every record lifetime an existential '
@@ -25,8 +26,8 @@ ASSUMPTIONS = [
     'the ladder is searched existentially (any behaviour the statement allows is accepted); lower slack of one delay on the first '
     'rung covers the documented avoid-churn rule',
     'a refresh arriving at the very instant of a scheduled query is a tie: either order is accepted',
-    'rungs after the first may be up to one delay early as well as late (a schedule kept by the avoid-churn rule keeps stepping with '
-    'the TTL it was created for)',
+    'rungs after the first may be up to one delay early as well as late: the statement bounds lateness only, and a kept schedule '
+    'entry may sit up to one delay before the 75 % point of the refreshed record',
 ]
 BUDGET = {'quick': {'examples': 1500}, 'thorough': {'examples': 12000, 'shards': 16}}
 EPS = 0.003
@@ -41,6 +42,12 @@ def alias(ti: int, ii: int, sp: int) -> str:
 
 learn_st = st.fixed_dictionaries({'op': st.just('learn'), 'type': st.integers(0, 1), 'inst': st.integers(0, 3), 'sp': st.sampled_from([0, 0, 0, 1]),
                                   'ttl': st.sampled_from(TTLS + [0]), 'repeat': st.sampled_from([0, 0, 0, 1, 2])})
+# refresh aimed so that the 75 % point of the refreshed record falls at (frac x delay) from a rung of the record's current schedule:
+# inside, at the edge of, and just outside the window in which the scheduler keeps the entry it already has
+aligned_st = st.fixed_dictionaries({'op': st.just('learn'), 'type': st.integers(0, 1), 'inst': st.integers(0, 1), 'sp': st.sampled_from([0, 0, 0, 1]),
+                                    'ttl': st.sampled_from(TTLS), 'repeat': st.sampled_from([0, 0, 0, 1]),
+                                    'align': st.fixed_dictionaries({'pct': st.sampled_from([75, 75, 85, 95]),
+                                                                    'frac': st.sampled_from([-1.2, -1.0, -0.5, 0.0, 0.3, 1.0, 1.2])})})
 tick_st = st.one_of(
     st.sampled_from([10, 1000, 5000, 14000, 20000, 40000, 60000, 300000, 900000, 1000000, 3000000]).map(lambda ms: {'op': 'tick', 'ms': ms}),
     st.integers(0, 5000000).map(lambda ms: {'op': 'tick', 'ms': ms}),
@@ -55,7 +62,7 @@ def scenario(draw) -> Dict[str, Any]:
     nb = draw(st.sampled_from([1, 1, 2]))
     browsers = [{'type': i, 'delay': draw(st.sampled_from([1, 2, 10, 60])), 'qtype': draw(st.sampled_from([None, None, 'QU', 'QM']))}
                 for i in range(nb)]
-    ops = draw(st.lists(st.one_of(learn_st, learn_st, tick_st), min_size=1, max_size=12))
+    ops = draw(st.lists(st.one_of(learn_st, learn_st, tick_st, aligned_st), min_size=1, max_size=12))
     if draw(st.booleans()):
         # the shape the suite lacks: a shorter-lived record learned while the timer is armed for a longer-lived one
         ops = [{'op': 'tick', 'ms': draw(st.sampled_from([15000, 20000, 100000]))},
@@ -123,6 +130,13 @@ class Exec:
                 if op['type'] >= len(self.case['browsers']):
                     continue
                 key = (op['type'], op['inst'])
+                if op.get('align') and key in self.live:
+                    v0 = self.live[key]
+                    rung = v0['c'] + v0['T'] * op['align']['pct'] / 100.0
+                    target = rung + op['align']['frac'] * self.case['browsers'][op['type']]['delay'] - 0.75 * max(op['ttl'], 1125)
+                    if target > w.clock.t:
+                        await asyncio.sleep(target - w.clock.t)
+                        self.stats['aligned_refresh'] = self.stats.get('aligned_refresh', 0) + 1
                 name = alias(op['type'], op['inst'], op['sp'])
                 rr = {'name': wire.labels_of(TYPES[op['type']]), 'type': 12, 'cls': 1, 'ttl': op['ttl'],
                       'rd': {'target': wire.labels_of(name)}}
@@ -242,6 +256,9 @@ def check(case: Dict[str, Any]) -> Dict[str, Any]:
             classes.append('recased-refresh')
         if any(v['u'] is not None for v in vs):
             classes.append('refreshed-or-withdrawn')
+    if ex.stats.get('aligned_refresh'):
+        nontrivial = True
+        classes.append('refresh-with-75pct-point-near-the-scheduled-query')
     if ex.stats['refresh_in_window']:
         nontrivial = True
         classes.append('refresh-inside-attempt-window')
